@@ -113,6 +113,8 @@ var isoFirstUse = []string{
 	`emit("fu5", pcall(load, "return 1 +")); probe(0); emit("fu5b", load("return ...", "c", "t", {})(3)); emit("fu5c", select("#", table.unpack({1, 2, nil, 4}, 1, 4)), table.concat({1, 2, 3}, ","))`,
 	`local t = {5, 2, 8, 1}; table.sort(t, function(a, b) return a > b end); probe(0); emit("fu6", table.concat(t, " "), #string.rep("ab", 3, "-"), ("abc"):reverse(), ("x"):byte(), math.max(1, 2.5), math.floor(-0.5), 7 // 2, 2^0.5 > 1.41)`,
 	`emit("fu7", math.type(math.random(10)), math.random() < 1); probe(0); emit("fu7b", type(package.path), type(package.config), package.searchpath("no.such", "./?.x") == nil, type(require))`,
+	`emit("fu9", runtime.context().flags, runtime.context().status); probe(0); local c9, f9 = runtime.callcontext({flags = "cpusafe iosafe"}, function() probe(0) return runtime.context().flags end); emit("fu9b", c9.status, f9, c9.flags)`,
+	`local c10, e10 = runtime.callcontext({flags = "iosafe memsafe"}, io.open, "/nonexistent/x"); probe(0); emit("fu10", c10.status, e10, c10.flags); emit("fu10b", select(2, runtime.callcontext({flags = "iosafe cpusafe"}, io.popen, "true")))`,
 	`local co = coroutine.wrap(function(a) local b = coroutine.yield(a + 1) return b * 2 end); emit("fu8", co(1), co(5)); probe(0); emit("fu8b", coroutine.isyieldable(), select(2, coroutine.running()), pcall(error, setmetatable({}, {__tostring = function() return "E" end})))`,
 }
 
